@@ -809,6 +809,149 @@ TWINS["C13_twin_cause_local"] = ("C13", [(D, """                        if confi
                         raise TypeCheckError(msg) from cause
 
                 # Actually""")])
+SEEDS["C18_code_memo_blind_to_checker"] = ("C18", [(H, """class Typechecker:
+    lookup = {}
+""", """_compiled_code = {}
+
+
+class Typechecker:
+    lookup = {}
+"""), (H, """    def source_to_code(self, data, path, *, _optimize=-1):
+        source = decode_source(data)""", """    def source_to_code(self, data, path, *, _optimize=-1):
+        if (path, bytes(data)) in _compiled_code:
+            return _compiled_code[(path, bytes(data))]
+        code = self._compile(data, path, _optimize=_optimize)
+        _compiled_code[(path, bytes(data))] = code
+        return code
+
+    def _compile(self, data, path, *, _optimize=-1):
+        source = decode_source(data)""")], "C18.8")
+TWINS["C18_twin_code_memo_keyed_by_checker"] = ("C18", [(H, """class Typechecker:
+    lookup = {}
+""", """_compiled_code = {}
+
+
+class Typechecker:
+    lookup = {}
+"""), (H, """    def source_to_code(self, data, path, *, _optimize=-1):
+        source = decode_source(data)""", """    def source_to_code(self, data, path, *, _optimize=-1):
+        key = (self._typechecker.get_hash(), path, bytes(data), _optimize)
+        if key in _compiled_code:
+            return _compiled_code[key]
+        code = self._compile(data, path, _optimize=_optimize)
+        _compiled_code[key] = code
+        return code
+
+    def _compile(self, data, path, *, _optimize=-1):
+        source = decode_source(data)""")])
+SEEDS["C19_config_is_thread_local"] = ("C19", [("jaxtyping/_config.py", "import os\n", "import os\nimport threading\n"), ("jaxtyping/_config.py", "class _JaxtypingConfig:", "class _JaxtypingConfig(threading.local):")], "C19.4")
+SEEDS["C19_hook_skips_instrumentation_when_disabled"] = ("C19", [(H, """from unittest.mock import patch
+""", """from unittest.mock import patch
+
+from ._config import config
+"""), (H, """    def source_to_code(self, data, path, *, _optimize=-1):
+        source = decode_source(data)""", """    def source_to_code(self, data, path, *, _optimize=-1):
+        if config.jaxtyping_disable:
+            return super().source_to_code(data, path, _optimize=_optimize)
+        source = decode_source(data)""")], "C19.1")
+SEEDS["C20_check_time_cache_on_annotation_class"] = ("C20", [(A, """        if get_treeflatten_memo():
+            return \"\"
+""", """        if get_treeflatten_memo():
+            return \"\"
+        if \"_seen_types\" not in cls.__dict__:
+            cls._seen_types = set()
+        cls._seen_types.add(type(obj))
+""")], "C20.6")
+SEEDS["C12_unpickle_through_live_registry"] = ("C12", [(A, """def _pickle_array_annotation(x: type["AbstractArray"]):""", """_live = {}
+
+
+def _restore(dtype, getitem_args):
+    try:
+        return _live[(dtype, getitem_args)]
+    except (KeyError, TypeError):
+        out = dtype[getitem_args]
+        _live[(dtype, getitem_args)] = out
+        return out
+
+
+def _pickle_array_annotation(x: type["AbstractArray"]):"""), (A, """        return x.dtype.__getitem__, (x._getitem_args,)""", """        return _restore, (x.dtype, x._getitem_args)""")], "C12.7")
+SEEDS["C17_push_reads_integer_arguments"] = ("C17", [(S, """    memos = ({}, {}, {}, arguments.copy())""", """    sizes = {}
+    for name, value in arguments.items():
+        if not isinstance(value, bool):
+            try:
+                sizes[name] = int(value)
+            except (TypeError, ValueError):
+                pass
+    memos = (sizes, {}, {}, arguments.copy())""")], "C17.2")
+SEEDS["C16_flatten_flag_cleared_by_leaf_callback"] = ("C16", [(P, """            is_flatten_leaftype = is_check_leaftype = is_leaftype
+""", """            def is_flatten_leaftype(x):
+                set_treeflatten_memo()
+                try:
+                    return is_leaftype(x)
+                finally:
+                    clear_treeflatten_memo()
+
+            is_check_leaftype = is_leaftype
+"""), (P, """        was_flattening = get_treeflatten_memo()
+        set_treeflatten_memo()
+        try:
+            leaves, structure = jtu.tree_flatten(obj, is_leaf=is_flatten_leaftype)
+        finally:
+            if not was_flattening:
+                clear_treeflatten_memo()
+""", """        leaves, structure = jtu.tree_flatten(obj, is_leaf=is_flatten_leaftype)
+""")], "C16.1")
+SEEDS["C15_union_none_member_passed_through"] = ("C15", [(A, """            out = [_make_array(x, dim_str, cls) for x in get_args(array_type)]""", """            out = [x if x is type(None) else _make_array(x, dim_str, cls) for x in get_args(array_type)]""")], "C15.2")
+SEEDS["C13_blame_probes_every_parameter"] = ("C13", [(D, """    for keep_name in param_signature.parameters.keys():
+        new_parameters = []""", """    problems = []
+    for keep_name in param_signature.parameters.keys():
+        new_parameters = []"""), (D, """            keep_value = _pformat(arguments[keep_name], short_self=False)
+            raise TypeCheckError(
+                f"\\nThe problem arose whilst typechecking parameter '{keep_name}'.\\n"
+                f"Actual value: {keep_value}\\n"
+                f"Expected type: {keep_annotation}."
+            ) from e
+    else:
+        # Could not localise the problem to a single argument -- probably due to
+        # e.g. a mismatched typevar, which each individual argument is okay with.
+        raise TypeCheckError("")""", """            keep_value = _pformat(arguments[keep_name], short_self=False)
+            problems.append((keep_name, keep_value, keep_annotation, e))
+    if problems:
+        keep_name, keep_value, keep_annotation, e = problems[0]
+        raise TypeCheckError(
+            f"\\nThe problem arose whilst typechecking parameter '{keep_name}'.\\n"
+            f"Actual value: {keep_value}\\n"
+            f"Expected type: {keep_annotation}. ({len(problems)} parameters fail)"
+        ) from e
+    raise TypeCheckError("")""")], "C13.10")
+TWINS["C13_twin_blame_breaks_out_of_loop"] = ("C13", [(D, """    for keep_name in param_signature.parameters.keys():
+        new_parameters = []""", """    found = None
+    for keep_name in param_signature.parameters.keys():
+        new_parameters = []"""), (D, """            keep_value = _pformat(arguments[keep_name], short_self=False)
+            raise TypeCheckError(
+                f"\\nThe problem arose whilst typechecking parameter '{keep_name}'.\\n"
+                f"Actual value: {keep_value}\\n"
+                f"Expected type: {keep_annotation}."
+            ) from e
+    else:
+        # Could not localise the problem to a single argument -- probably due to
+        # e.g. a mismatched typevar, which each individual argument is okay with.
+        raise TypeCheckError("")""", """            keep_value = _pformat(arguments[keep_name], short_self=False)
+            found = (keep_name, keep_value, keep_annotation, e)
+            break
+    if found is not None:
+        keep_name, keep_value, keep_annotation, e = found
+        raise TypeCheckError(
+            f"\\nThe problem arose whilst typechecking parameter '{keep_name}'.\\n"
+            f"Actual value: {keep_value}\\n"
+            f"Expected type: {keep_annotation}."
+        ) from e
+    raise TypeCheckError("")""")])
+SEEDS["C13_pytree_rollback_keeps_leaf_bindings"] = ("C13", [(P, """            set_shape_memo(
+                single_memo_bak, variadic_memo_bak, pytree_memo_bak, arg_memo_bak
+            )
+            return False""", """            set_shape_memo(single_memo, variadic_memo, pytree_memo_bak, arg_memo)
+            return False""")], "C13.11")
 SEEDS["C13_cause_conditional_expression_swapped"] = ("C13", [(D, """                        if config.jaxtyping_remove_typechecker_stack:
                             raise TypeCheckError(msg) from None
                         else:
